@@ -1,34 +1,25 @@
-import JunoModel.C06.ProofsConv
-import JunoModel.C06.ProofsFeed
-import JunoModel.C06.ProofsLive
+import JunoModel.C06.ProofsRun
 /-!
-C06 — property theorems (statements only; lemmas are in `Proofs*.lean`).
+C06 — property theorems (obligations). Lemmas, statements for arbitrary code variants and facts
+that merely restate the model are in `Proofs*.lean`; here every theorem is either about the code
+/repo contains NOW (`Cfg.asFound`), or holds for every variant, or is a negation witness
+(`*_before_<commit>` = regression witness for a defect that is fixed in /repo; without suffix = a
+defect that is still in /repo, next to its `_partial` theorem).
 
 Model (`Model.lean`): the SERIAL part of juno's sync pipeline as a transition system `Impl.step`
 (every mutation of the chain happens in the callback chain of the `verifiers` stream, one at a
-time); what the source answered, in which order things arrive, whether the stream was cancelled are
-inputs of the events, so "for all event lists" is "for all source behaviours and all goroutine
-schedules" of the part that touches the chain. `Spec.step` is the evidence-based relation the
-harness checks observed traces of the real `Synchronizer` against. `cfg : Cfg` selects the code
-variant: `Cfg.asFound` = /repo as it is now (the three fixes 4de714c, 6c0318d, 508f9af applied),
-`Cfg.original` = the pinned commit before them (what the negation witnesses are about).
+time); what the source answered, in which order things arrive, whether the stream was cancelled, a
+restart, are inputs of the events, so "for all event lists" is "for all source behaviours and all
+schedules" of the part that touches the chain. `Spec.step m` is the relation between commits /
+notifications and the source's answers that the harness checks on observed traces of the real
+`Synchronizer`; `m : Mode` says which answers may decide a revert (`lenient`, `fresh`, `verified`).
+The harness also replays every observed run through `Impl.step` itself (driver op `impl`).
 
-Assumptions (recorded in checks/c06.json): block numbers are uint64 values; `RevertHead` succeeds
-on a stored head (property C04); block hashes are collision free (`HashInj`) where chains are
-compared.
+Assumptions (checks/c06.json): block numbers are uint64 values; `RevertHead` succeeds on a stored
+head; block hashes are collision free (`HashInj`) where chains are compared.
 -/
 namespace Juno.C06.Props
 open Juno.C06
-
-theorem step_reorgDetected (cfg : Cfg) (s : Impl) (next : Nat) (latest : Option Hdr) :
-    (s.step cfg (.reorgDetected next latest)).2 = [] ∧
-      (s.step cfg (.reorgDetected next latest)).1.node = s.node := by
-  cases ht : s.task with
-  | some _ => simp [Impl.step, ht]
-  | none =>
-    cases latest with
-    | none => cases hir : isReverting cfg s.node.chain next none <;> simp [Impl.step, ht, hir]
-    | some l => cases hir : isReverting cfg s.node.chain next (some l) <;> simp [Impl.step, ht, hir]
 
 /-! ## every block the node stores passed verification and extended the head -/
 
@@ -80,24 +71,6 @@ theorem stored_verified_and_extends (cfg : Cfg) (s : Impl) (e : Ev) (n h : Nat)
         | brk => simp [Impl.step, ht, hch, hit] at hs
         | revert cont => cases revOk <;> simp [Impl.step, ht, hch, hit, revertHead] at hs
   | restart => cases ht : s.task <;> simp [Impl.step, ht] at hs
-
-/-- WHERE the number is checked. `fetcherTask` hands on whatever block the source returned for a
-height — it never compares `block.Number` with the height it asked for (in the model: the `req`
-of `deliver` influences nothing but the ghost evidence). -/
-theorem request_height_is_irrelevant (cfg : Cfg) (s : Impl) (r r' : Nat) (b : Blk) (c : Bool) :
-    (s.step cfg (.deliver r b c)).1.node = (s.step cfg (.deliver r' b c)).1.node ∧
-    (s.step cfg (.deliver r b c)).1.task = (s.step cfg (.deliver r' b c)).1.task ∧
-    (s.step cfg (.deliver r b c)).2 = (s.step cfg (.deliver r' b c)).2 := by
-  cases ht : s.task with
-  | some _ => simp [Impl.step, ht]
-  | none =>
-    by_cases hok : b.ok = true
-    case neg => simp [Impl.step, ht, hok]
-    case pos =>
-    cases c with
-    | true => simp [Impl.step, ht, hok]
-    | false =>
-      cases hsucc : succession s.node.chain b <;> simp [Impl.step, ht, hok, hsucc, onStored]
 
 /-- … it is `Store` (`verifyBlockSuccession`) that enforces "number = head + 1" (0 on an empty
 chain): a block with any other number changes nothing, whatever height it was fetched for and
@@ -188,39 +161,122 @@ theorem head_moves_back_only_by_revert (cfg : Cfg) (s : Impl) (e : Ev) :
             · simp [Impl.step, ht, hch, hit, revertHead]
   | restart => left; cases ht : s.task <;> simp [Impl.step, ht]
 
-/-- Conditions on the environment of a run that do not depend on the state: block numbers are
-uint64 values and `RevertHead` succeeds. -/
-def EnvOK : List Ev → Prop
-  | [] => True
-  | .deliver _ b _ :: es => b.num < U64 ∧ EnvOK es
-  | .iter _ revOk :: es => revOk = true ∧ EnvOK es
-  | _ :: es => EnvOK es
 
-theorem EnvOK.runOK {cfg : Cfg} (hn : cfg.numCheck = true) :
-    ∀ (es : List Ev) (s : Impl), EnvOK es → s.runOK cfg es
-  | [], _, _ => trivial
-  | .deliver _ _ _ :: es, s, h => ⟨h.1, EnvOK.runOK hn es _ h.2⟩
-  | .reorgDetected _ _ :: es, s, h => ⟨trivial, EnvOK.runOK hn es _ h⟩
-  | .iter _ _ :: es, s, h =>
-    ⟨⟨h.1, fun hf => by rw [hn] at hf; cases hf⟩, EnvOK.runOK hn es _ h.2⟩
-  | .restart :: es, s, h => ⟨trivial, EnvOK.runOK hn es _ h⟩
+/-! ## what a revert may be decided on -/
 
-/-- REFINEMENT. Every run of the machine from a well-formed chain — whatever the source answers, in
-whatever order — is accepted by the evidence-based relation `Spec`: every stored block was served,
-verified and extends the head; every revert removes the head and is justified by an answer of the
-source (`justified`); the notifications are exactly the ones owed, in order; nothing stays owed.
-`Impl.runOK` asks: uint64 block numbers, `RevertHead` succeeds, and — only if the code does not
-check it itself (`cfg.numCheck = false`, the original code) — that `revertTask`'s
-`BlockByNumber(h)` is answered with a block numbered `h`. The STRICT relation (no revert is ever
-decided on a successor block fetched earlier) holds for the code that confirms the head first
-(`cfg.confirmHead`). -/
-theorem run_accepted (cfg : Cfg) (strict : Bool) (hsc : strict = true → cfg.confirmHead = true)
-    (c : Chain) (es : List Ev) (hl : Linked c)
-    (hb : ∀ x ∈ c, x.num < U64) (hok : (Impl.init c).runOK cfg es) :
-    ∃ sp, Spec.run strict (Spec.init c) ((Impl.init c).trace cfg es) = .ok sp ∧
-      sp.chain = (Impl.run cfg (Impl.init c) es).1.node.chain ∧ sp.owed = [] := by
-  obtain ⟨sp, hr, hs⟩ := Sim.run cfg hsc es (Sim.init hl hb) hok
-  exact ⟨sp, hr, hs.chain, hs.owed⟩
+/-- THE CODE AS IT IS NOW, full run level. Every run from a well-formed chain — whatever the source
+answers, in whatever order, with restarts — is accepted by `Spec` in mode `fresh`:
+* every stored block was served, verified and extends the head;
+* every revert removes the head and is decided by an answer the source gave SINCE THE LAST STORED
+  BLOCK (hence after the reverted block was stored): a block served for that very height with that
+  number and another hash, or a latest header at/below it that differs from the node's block there;
+* the notifications are exactly the owed ones, in order, nothing is owed at the end or at a restart;
+* the chain stays well formed.
+Environment: uint64 block numbers, `RevertHead` succeeds (`EnvOK`). Nothing is assumed about the
+source. (The `rfl`s tie the statement to the switch `Cfg.asFound`.) -/
+theorem run_accepted_asFound (c : Chain) (es : List Ev) (hl : Linked c)
+    (hb : ∀ x ∈ c, x.num < U64) (he : EnvOK es) :
+    ∃ sp, Spec.run .fresh (Spec.init c) ((Impl.init c).trace Cfg.asFound es) = .ok sp ∧
+      sp.chain = (Impl.run Cfg.asFound (Impl.init c) es).1.node.chain ∧ sp.owed = [] ∧
+      Linked sp.chain ∧ ∀ x ∈ sp.chain, x.num < U64 :=
+  run_accepted_general Cfg.asFound .fresh ⟨fun _ => rfl, fun h => by cases h⟩ c es hl hb
+    (EnvOK.runOK rfl es _ he)
+
+/-- What a `fresh`-mode decision is worth: the deciding answer is one of the answers since the last
+store; if it is a block, the reverted head is absent from EVERY well-formed chain containing that
+block (so from the source's chain at the moment of the answer, if the answer was true then); if it
+is a bare latest header, the head is absent from every chain that has a block with that number and
+hash — but the header itself is an UNVERIFIABLE claim. No hypothesis about the other answers, about
+the source being honest at other times, or about it keeping one chain. -/
+theorem fresh_revert_absent_from_the_answering_chain (ev : Evidence) (hd : Blk) (tl : Chain)
+    (hj : justified .fresh ev (hd :: tl) hd = true) :
+    (∃ rb ∈ ev.rblocks, rb.1 = hd.num ∧ rb.2.num = hd.num ∧
+        ∀ src : Chain, Linked src → rb.2 ∈ src → hd ∉ src) ∨
+    (∃ l ∈ ev.rlatests, l.num ≤ hd.num ∧
+        ∀ (u : List Blk) (src : Chain), HashInj u → Linked (hd :: tl) → Linked src →
+          (∀ x ∈ hd :: tl, x ∈ u) → (∀ x ∈ src, x ∈ u) →
+          (∃ b ∈ src, b.num = l.num ∧ b.hash = l.hash) → hd ∉ src) :=
+  fresh_revert_sound hj
+
+/- FULL-STRENGTH statement — "the head only moves backwards by reverts of blocks the source no
+longer has, whatever the source does (… report stale heads, serve invalid blocks …)" — needs every
+revert to be decided by something the node has VERIFIED: `run_accepted_asFound` with mode `verified`.
+That is FALSE for the code in /repo: `isReverting` acts on the bare `(number, hash)` of
+`BlockHeaderLatest`, and `revertTask` compares the `Hash` field of an answer it never verifies.
+Both negation witnesses below are reproduced on the real synchroniser by the harness (findings
+`reverted-live-block-on-unverifiable-latest-header`, `…-on-hash-altered-answer-to-revertTask`).
+`run_accepted_asFound` above is the proved part (`_partial` alias); with the two proposed fixes the
+full statement holds (`run_accepted_with_proposed_fixes`). -/
+theorem reverts_decided_by_verified_answers_partial (c : Chain) (es : List Ev) (hl : Linked c)
+    (hb : ∀ x ∈ c, x.num < U64) (he : EnvOK es) :
+    ∃ sp, Spec.run .fresh (Spec.init c) ((Impl.init c).trace Cfg.asFound es) = .ok sp :=
+  let ⟨sp, h, _⟩ := run_accepted_asFound c es hl hb he; ⟨sp, h⟩
+
+/-- NEGATION WITNESS 1 (defect in /repo): node and source hold the same chain `[g, x1, x2, x3]`. ONE
+`BlockHeaderLatest` answer `(0, 999)` — a hash no chain contains — and the code reverts blocks 3, 2, 1
+without asking for any of them; then it asks for block 0, is told the truth and stops. The `fresh`
+relation accepts the run (a header was given), the `verified` relation rejects it; the code with
+`confirmLatest` asks for block 0 first, sees that it does not carry the announced hash, and reverts
+nothing. -/
+theorem lying_latest_header_reverts_live_blocks :
+    let g : Blk := ⟨0, 1, 0, true⟩
+    let x1 : Blk := ⟨1, 2, 1, true⟩
+    let x2 : Blk := ⟨2, 3, 2, true⟩
+    let x3 : Blk := ⟨3, 4, 3, true⟩
+    let es : List Ev := [.reorgDetected 4 (some ⟨0, 999⟩) (some g), .iter none true, .iter none true,
+      .iter none true, .iter (some g) true]
+    EnvOK es ∧
+    (Impl.run Cfg.asFound (Impl.init [x3, x2, x1, g]) es).2 =
+      [Obs.reverted 3 4, Obs.reverted 2 3, Obs.reverted 1 2] ∧
+    rejectOf (Spec.run .fresh (Spec.init [x3, x2, x1, g])
+      ((Impl.init [x3, x2, x1, g]).trace Cfg.asFound es)) = none ∧
+    rejectOf (Spec.run .verified (Spec.init [x3, x2, x1, g])
+      ((Impl.init [x3, x2, x1, g]).trace Cfg.asFound es)) = some .revertNotJustified ∧
+    (Impl.run Cfg.fixed (Impl.init [x3, x2, x1, g]) es).2 = [] := by
+  refine ⟨⟨rfl, rfl, rfl, rfl, trivial⟩, by decide, by decide, by decide, by decide⟩
+
+/-- NEGATION WITNESS 2 (defect in /repo): a revert task is running (here started by the lying header
+`(1, 999)`); for block 0 the source answers with the genesis whose `Hash` field is altered — an
+answer `SanityCheckNewHeight` refuses (`ok = false`). `revertTask` compares the hash without
+verifying and reverts the genesis: the chain is empty. Accepted by `fresh`, rejected by `verified`;
+the code with `verifyAns` breaks instead (and with `confirmLatest` never starts the task). -/
+theorem hash_altered_answer_reverts_live_block :
+    let g : Blk := ⟨0, 1, 0, true⟩
+    let x1 : Blk := ⟨1, 2, 1, true⟩
+    let bad : Blk := ⟨0, 555, 0, false⟩
+    let es : List Ev := [.reorgDetected 2 (some ⟨1, 999⟩) none, .iter none true, .iter (some bad) true]
+    EnvOK es ∧
+    (Impl.run Cfg.asFound (Impl.init [x1, g]) es).2 = [Obs.reverted 1 2, Obs.reverted 0 1] ∧
+    (Impl.run Cfg.asFound (Impl.init [x1, g]) es).1.node.chain = [] ∧
+    rejectOf (Spec.run .fresh (Spec.init [x1, g]) ((Impl.init [x1, g]).trace Cfg.asFound es)) = none ∧
+    rejectOf (Spec.run .verified (Spec.init [x1, g]) ((Impl.init [x1, g]).trace Cfg.asFound es)) =
+      some .revertNotJustified ∧
+    (Impl.run ⟨true, true, true, true, false⟩ (Impl.init [x1, g]) es).2 = [Obs.reverted 1 2] ∧
+    (Impl.run Cfg.fixed (Impl.init [x1, g]) es).2 = [] := by
+  refine ⟨⟨rfl, rfl, trivial⟩, by decide, by decide, by decide, by decide, by decide, by decide⟩
+
+/-- WITH THE TWO PROPOSED FIXES (`verifyAns`, `confirmLatest`; every earlier fix in place) the
+full-strength relation holds for all runs: every revert is decided by a VERIFIED block the source
+served, for its own height, since the last store. -/
+theorem run_accepted_with_proposed_fixes (cfg : Cfg) (h1 : cfg.numCheck = true)
+    (h2 : cfg.confirmHead = true) (h3 : cfg.verifyAns = true) (h4 : cfg.confirmLatest = true)
+    (c : Chain) (es : List Ev) (hl : Linked c) (hb : ∀ x ∈ c, x.num < U64) (he : EnvOK es) :
+    ∃ sp, Spec.run .verified (Spec.init c) ((Impl.init c).trace cfg es) = .ok sp ∧
+      sp.chain = (Impl.run cfg (Impl.init c) es).1.node.chain ∧ sp.owed = [] :=
+  let ⟨sp, h, hc, ho, _⟩ := run_accepted_general cfg .verified ⟨fun _ => h2, fun _ => ⟨h3, h4⟩⟩ c es hl hb
+    (EnvOK.runOK h1 es _ he)
+  ⟨sp, h, hc, ho⟩
+
+/-- … and then "of blocks the source no longer has" holds per decision, for a source that reorgs
+and lies at will: the deciding answer is ONE verified block `rb`, served for its own height after
+the reverted head was stored, and the head is absent from EVERY well-formed chain that contains
+`rb` — in particular from the source's chain at the moment it served `rb`. -/
+theorem verified_revert_absent_from_the_answering_chain (ev : Evidence) (hd : Blk) (tl : Chain)
+    (hj : justified .verified ev (hd :: tl) hd = true) :
+    ∃ rb ∈ ev.rblocks, rb.2.ok = true ∧ rb.1 = rb.2.num ∧ rb.2.num ≤ hd.num ∧
+      ∀ (u : List Blk) (src : Chain), HashInj u → Linked (hd :: tl) → Linked src →
+        (∀ x ∈ hd :: tl, x ∈ u) → (∀ x ∈ src, x ∈ u) → rb.2 ∈ src → hd ∉ src :=
+  verified_revert_sound hj
 
 /-- REACHABILITY. The well-formedness `run_accepted` asks of the initial chain is an invariant:
 every chain the machine produces (numbers 0,1,2,…, each block naming its predecessor's hash,
@@ -230,107 +286,65 @@ theorem chain_stays_linked (cfg : Cfg) (c : Chain) (es : List Ev) (hl : Linked c
     (hb : ∀ x ∈ c, x.num < U64) (hok : (Impl.init c).runOK cfg es) :
     Linked (Impl.run cfg (Impl.init c) es).1.node.chain ∧
       ∀ x ∈ (Impl.run cfg (Impl.init c) es).1.node.chain, x.num < U64 := by
-  obtain ⟨sp, _, hs⟩ := Sim.run cfg (strict := false) (fun h => by cases h) es (Sim.init hl hb) hok
+  obtain ⟨sp, _, hs⟩ := Sim.run cfg (ModeOK.lenient cfg) es (Sim.init hl hb) hok
   exact ⟨hs.linked, hs.bound⟩
 
 theorem reachable_from_empty_linked (cfg : Cfg) (es : List Ev) (hok : (Impl.init []).runOK cfg es) :
     Linked (Impl.run cfg (Impl.init []) es).1.node.chain :=
   (chain_stays_linked cfg [] es trivial (by intro x hx; cases hx) hok).1
 
-/-- With the number check in `revertTask` and the head confirmation in `storeTask` (proposed
-fixes) the refinement needs no assumption about the source at all, and holds for the strict
-relation. -/
-theorem run_accepted_fixed (cfg : Cfg) (hn : cfg.numCheck = true) (hc : cfg.confirmHead = true)
-    (c : Chain) (es : List Ev) (hl : Linked c) (hb : ∀ x ∈ c, x.num < U64) (he : EnvOK es) :
-    ∃ sp, Spec.run true (Spec.init c) ((Impl.init c).trace cfg es) = .ok sp ∧
-      sp.chain = (Impl.run cfg (Impl.init c) es).1.node.chain ∧ sp.owed = [] :=
-  run_accepted cfg true (fun _ => hc) c es hl hb (EnvOK.runOK hn es _ he)
 
-/-- THE CODE AS IT IS NOW (`Cfg.asFound`, the three fixes applied): every run, whatever the source
-does, is accepted by the STRICT relation; the only assumptions left are uint64 block numbers and a
-succeeding `RevertHead`. (The two `rfl`s are the tie to the switch: they fail if a field of
-`Cfg.asFound` goes back to `false`.) -/
-theorem run_accepted_asFound (c : Chain) (es : List Ev) (hl : Linked c)
-    (hb : ∀ x ∈ c, x.num < U64) (he : EnvOK es) :
-    ∃ sp, Spec.run true (Spec.init c) ((Impl.init c).trace Cfg.asFound es) = .ok sp ∧
-      sp.chain = (Impl.run Cfg.asFound (Impl.init c) es).1.node.chain ∧ sp.owed = [] :=
-  run_accepted_fixed Cfg.asFound rfl rfl c es hl hb he
+/-! ## regression witnesses for the three defects fixed in /repo (about `Cfg.original`) -/
 
-/- FULL-STRENGTH statement for the ORIGINAL code — `run_accepted_fixed` with `cfg := Cfg.original` —
-is FALSE, in two ways: (1) `revertTask` compares only hashes, so one answer carrying another block
-number makes it revert a block without any evidence against it
-(`wrong_number_answer_reverts_unjustified`); (2) `storeTask` reverts the head on a successor block
-that may have been fetched before the head was stored (`stale_answer_reverts_live_block`). Proved
-part: the non-strict relation, assuming well-numbered answers (`Impl.runOK`). Both defects are
-repaired in /repo (6c0318d, 508f9af). -/
-theorem run_accepted_original_partial (c : Chain) (es : List Ev) (hl : Linked c)
-    (hb : ∀ x ∈ c, x.num < U64) (hok : (Impl.init c).runOK Cfg.original es) :
-    ∃ sp, Spec.run false (Spec.init c) ((Impl.init c).trace Cfg.original es) = .ok sp ∧
-      sp.chain = (Impl.run Cfg.original (Impl.init c) es).1.node.chain ∧ sp.owed = [] :=
-  run_accepted Cfg.original false (fun h => by cases h) c es hl hb hok
-
-/-- why the acceptor rejected a trace (`none` = accepted) -/
-def rejectOf : Except Reject Spec → Option Reject
-  | .ok _ => none
-  | .error r => some r
-
-/-- Negation witness (finding `revert-decided-on-answer-with-wrong-block-number`): node on
-`[g, x1]`. A latest header `(1, 99)` that differs from the node's block 1 starts `revertTask(0)`:
-block 1 is reverted (justified). For block 0 the task asks the source; the source answers
-`BlockByNumber(0)` with its valid block number 2: the hashes differ, so the original code reverts
-the genesis too — no answer of the source contradicts it, `Spec` rejects the trace. With the number
-check the task breaks instead. -/
-theorem wrong_number_answer_reverts_unjustified :
+/-- (fixed by 6c0318d) `revertTask` compared only hashes: an answer carrying another block number
+made it revert a block no answer contradicted. -/
+theorem wrong_number_answer_reverts_unjustified_before_6c0318d :
     let g : Blk := ⟨0, 1, 0, true⟩
     let x1 : Blk := ⟨1, 2, 1, true⟩
     let x2 : Blk := ⟨2, 3, 2, true⟩
-    let es : List Ev := [.reorgDetected 2 (some ⟨1, 99⟩), .iter none true, .iter (some x2) true]
-    EnvOK es ∧
+    let es : List Ev := [.reorgDetected 2 (some ⟨1, 99⟩) none, .iter none true, .iter (some x2) true]
     (Impl.run Cfg.original (Impl.init [x1, g]) es).2 = [Obs.reverted 1 2, Obs.reverted 0 1] ∧
-    rejectOf (Spec.run false (Spec.init [x1, g]) ((Impl.init [x1, g]).trace Cfg.original es)) =
+    rejectOf (Spec.run .lenient (Spec.init [x1, g]) ((Impl.init [x1, g]).trace Cfg.original es)) =
       some .revertNotJustified ∧
-    (Impl.run Cfg.fixed (Impl.init [x1, g]) es).2 = [Obs.reverted 1 2] ∧
-    rejectOf (Spec.run true (Spec.init [x1, g]) ((Impl.init [x1, g]).trace Cfg.fixed es)) = none := by
-  refine ⟨⟨rfl, rfl, trivial⟩, by decide, by decide, by decide, by decide⟩
+    (Impl.run Cfg.asFound (Impl.init [x1, g]) es).2 = [Obs.reverted 1 2] := by
+  refine ⟨by decide, by decide, by decide⟩
 
-/-! ## reverts remove only blocks the source no longer has -/
-
-/-- What acceptance of a revert means: the block is the head and the source has contradicted it. -/
-theorem accepted_revert_is_justified (strict : Bool) (s s' : Spec) (n h : Nat)
-    (hst : Spec.step strict s (.obs (.reverted n h)) = .ok s') :
-    ∃ hd tl, s.chain = hd :: tl ∧ hd.num = n ∧ hd.hash = h ∧ justified strict s.ev s.chain hd = true ∧
-      s'.chain = tl := by
-  obtain ⟨hd, tl, h1, h2, h3, h4, h5⟩ := Spec.reverted_inv hst
-  exact ⟨hd, tl, h1, h2, h3, h4, by rw [h5]⟩
-
-/-- Soundness of the evidence: if every answer the node has seen so far is true of ONE chain `src`
-(served blocks are blocks of `src`, latest headers — possibly stale — are headers of blocks of
-`src`) and hashes are collision free, a justified revert removes a block `src` does not contain. -/
-theorem justified_revert_not_in_source (strict : Bool) (u : List Blk) (hi : HashInj u) (ev : Evidence)
-    (src : Chain) (hd : Blk) (tl : Chain) (hlc : Linked (hd :: tl)) (hls : Linked src)
-    (hcu : ∀ x ∈ hd :: tl, x ∈ u) (hsu : ∀ x ∈ src, x ∈ u)
-    (hon : Honest ev src) (hj : justified strict ev (hd :: tl) hd = true) : hd ∉ src :=
-  justified_sound hi rfl hlc hls hcu hsu hon hj
-
-/-- Negation witness (finding `reverted-live-block-on-successor-fetched-before-the-reorg`): answers
-that were each true when given but belong to DIFFERENT chains of the source do cause the revert of
-a block the source holds now. Source was `[g, a1, a2]`, is now `[g, b1]`; the node already stored
-`b1` (fetched after the reorg); the block `a2`, fetched before the reorg by a parallel fetcher,
-arrives: `ErrParentDoesNotMatchHead`, `revertTask(0)` reverts `b1` without asking. The non-strict
-relation accepts this (a verified successor with another parent was served), the strict one
-rejects it; the code that confirms the head first asks for block 1, gets `b1`, and keeps it. -/
-theorem stale_answer_reverts_live_block :
+/-- (fixed by 508f9af) a successor block fetched before a reorg made `storeTask` revert the new
+head without asking. -/
+theorem stale_answer_reverts_live_block_before_508f9af :
     let g : Blk := ⟨0, 1, 0, true⟩
     let b1 : Blk := ⟨1, 20, 1, true⟩
     let a2 : Blk := ⟨2, 11, 10, true⟩
     let es : List Ev := [.deliver 2 a2 false, .iter (some b1) true]
-    EnvOK es ∧
     (Impl.run Cfg.original (Impl.init [b1, g]) es).2 = [Obs.reverted 1 20] ∧
-    rejectOf (Spec.run false (Spec.init [b1, g]) ((Impl.init [b1, g]).trace Cfg.original es)) = none ∧
-    rejectOf (Spec.run true (Spec.init [b1, g]) ((Impl.init [b1, g]).trace Cfg.original es)) =
+    rejectOf (Spec.run .lenient (Spec.init [b1, g]) ((Impl.init [b1, g]).trace Cfg.original es)) = none ∧
+    rejectOf (Spec.run .fresh (Spec.init [b1, g]) ((Impl.init [b1, g]).trace Cfg.original es)) =
       some .revertNotJustified ∧
-    (Impl.run Cfg.fixed (Impl.init [b1, g]) es).2 = [] := by
-  exact ⟨⟨by decide, rfl, trivial⟩, by decide, by decide, by decide, by decide⟩
+    (Impl.run Cfg.asFound (Impl.init [b1, g]) es).2 = [] := by
+  exact ⟨by decide, by decide, by decide, by decide⟩
+
+/-- (fixed by 4de714c) finding `no-convergence-when-source-chain-is-a-different-genesis-only`:
+source `[g']`, node `[g, x1]`: `isReverting` returns `remoteHeight - 1 = 2^64-1`, `revertTask` asks
+for block 1, the source has none, the loop breaks; every round leaves the node unchanged, for ever.
+The guard repairs it. -/
+theorem no_convergence_remote_height_zero_before_4de714c :
+    let g : Blk := ⟨0, 1, 0, true⟩
+    let x1 : Blk := ⟨1, 2, 1, true⟩
+    let g' : Blk := ⟨0, 50, 0, true⟩
+    (∀ k, (runRounds Cfg.original [g'] k ⟨[x1, g], none⟩).1.chain = [x1, g]) ∧
+    (runRounds Cfg.asFound [g'] 4 ⟨[x1, g], none⟩).1.chain = [g'] := by
+  refine ⟨?_, by decide⟩
+  intro k
+  induction k with
+  | zero => rfl
+  | succ k ih =>
+    have hr : round Cfg.original [⟨0, 50, 0, true⟩] ⟨[⟨1, 2, 1, true⟩, ⟨0, 1, 0, true⟩], none⟩ =
+        (⟨[⟨1, 2, 1, true⟩, ⟨0, 1, 0, true⟩], none⟩, []) := by decide
+    have hstep : (runRounds Cfg.original [⟨0, 50, 0, true⟩] (k + 1)
+          ⟨[⟨1, 2, 1, true⟩, ⟨0, 1, 0, true⟩], none⟩).1 =
+        (runRounds Cfg.original [⟨0, 50, 0, true⟩] k
+          (round Cfg.original [⟨0, 50, 0, true⟩] ⟨[⟨1, 2, 1, true⟩, ⟨0, 1, 0, true⟩], none⟩).1).1 := rfl
+    rw [hstep, hr]; exact ih
 
 /-! ## notifications are exact -/
 
@@ -366,98 +380,55 @@ theorem failed_revert_makes_reorg_range_wrong :
       [Obs.revertFailed 1 2, Obs.stored 2 30, Obs.reorg ⟨1, 2, 1, 2⟩, Obs.newHead 2 30] := by
   decide
 
-/-! ## convergence of the canonical sequential schedule -/
 
-/-- Against a stable honest source (`Setting`: a well-formed chain of verified blocks, shorter than
-2^64, collision-free hashes) the restart loop's canonical sequential schedule reaches
-`node.chain = source.chain` within `|source| + |node| + 1` rounds and stays there, from every
-well-formed node chain such that (i) the source's chain is not a proper prefix of the node's
-(`Good.notTrunc`) and (ii) `Good.noUnderflow`: the code has the `remoteHeight = 0` guard, or the
-source holds more than one block, or the node holds at most one. Terminating measure: `measure`.
-PARTIAL because of (ii): the full-strength statement (without it) is false for the original code,
-see `no_convergence_remote_height_zero`. For schedules other than this one see
-`liveness_fair_partial`. -/
-theorem convergence_sequential_partial (cfg : Cfg) (u : List Blk) (src : Chain) (n : Node)
-    (S : Setting u src) (G : Good cfg u src n.chain) (k : Nat)
-    (hk : src.length + n.chain.length + 1 ≤ k) :
-    (runRounds cfg src k n).1.chain = src :=
-  runRounds_chain S k n G (Nat.le_trans (measure_le _ _) hk)
+/-! ## convergence -/
 
-/-- With the proposed `remoteHeight = 0` guard, hypothesis (ii) disappears. -/
-theorem convergence_sequential_fixed (cfg : Cfg) (hz : cfg.zeroGuard = true) (u : List Blk)
-    (src c : Chain) (r : Option Range) (S : Setting u src) (hl : Linked c) (hu : ∀ b ∈ c, b ∈ u)
-    (hb : c.length < U64) (ht : src <:+ c → src = c) (k : Nat)
-    (hk : src.length + c.length + 1 ≤ k) :
-    (runRounds cfg src k ⟨c, r⟩).1.chain = src :=
-  convergence_sequential_partial cfg u src ⟨c, r⟩ S ⟨hl, hu, hb, ht, Or.inl hz⟩ k hk
-
-/-- THE CODE AS IT IS NOW: convergence of the sequential schedule without the underflow
-hypothesis (`rfl` ties it to the switch). -/
+/-- THE CODE AS IT IS NOW, canonical sequential schedule: against a stable honest source
+(`Setting`) the restart loop reaches `chain = source chain` within `|source| + |node| + 1` rounds
+and stays there, from every well-formed node chain of which the source's chain is not a proper
+prefix (a pure truncation cannot be told from a stale head and is never followed: assumption). -/
 theorem convergence_sequential_asFound (u : List Blk)
     (src c : Chain) (r : Option Range) (S : Setting u src) (hl : Linked c) (hu : ∀ b ∈ c, b ∈ u)
     (hb : c.length < U64) (ht : src <:+ c → src = c) (k : Nat)
     (hk : src.length + c.length + 1 ≤ k) :
     (runRounds Cfg.asFound src k ⟨c, r⟩).1.chain = src :=
-  convergence_sequential_fixed Cfg.asFound rfl u src c r S hl hu hb ht k hk
+  runRounds_chain S k ⟨c, r⟩ ⟨hl, hu, hb, ht, Or.inl rfl⟩ (Nat.le_trans (measure_le _ _) hk)
 
-/-- Negation witness (finding `no-convergence-when-source-chain-is-a-different-genesis-only`):
-source `[g']`, node `[g, x1]`: `isReverting` returns `remoteHeight - 1 = 2^64-1`, `revertTask` asks
-for block 1, the source has none, the loop breaks; every round leaves the node unchanged, for ever.
-The guard repairs it. -/
-theorem no_convergence_remote_height_zero :
-    let g : Blk := ⟨0, 1, 0, true⟩
-    let x1 : Blk := ⟨1, 2, 1, true⟩
-    let g' : Blk := ⟨0, 50, 0, true⟩
-    (∀ k, (runRounds Cfg.original [g'] k ⟨[x1, g], none⟩).1.chain = [x1, g]) ∧
-    (runRounds Cfg.fixed [g'] 4 ⟨[x1, g], none⟩).1.chain = [g'] := by
-  refine ⟨?_, by decide⟩
-  intro k
-  induction k with
-  | zero => rfl
-  | succ k ih =>
-    have hr : round Cfg.original [⟨0, 50, 0, true⟩] ⟨[⟨1, 2, 1, true⟩, ⟨0, 1, 0, true⟩], none⟩ =
-        (⟨[⟨1, 2, 1, true⟩, ⟨0, 1, 0, true⟩], none⟩, []) := by decide
-    have hstep : (runRounds Cfg.original [⟨0, 50, 0, true⟩] (k + 1)
-          ⟨[⟨1, 2, 1, true⟩, ⟨0, 1, 0, true⟩], none⟩).1 =
-        (runRounds Cfg.original [⟨0, 50, 0, true⟩] k
-          (round Cfg.original [⟨0, 50, 0, true⟩] ⟨[⟨1, 2, 1, true⟩, ⟨0, 1, 0, true⟩], none⟩).1).1 := rfl
-    rw [hstep, hr]; exact ih
-
-/-! ## liveness beyond the sequential schedule -/
-
-/-- SAFETY OF PROGRESS. With a stable honest source, NO event of the serial machine — a block of
-the source delivered late, twice, out of order, for another height, cancelled; a failed fetch with a
-stale latest header; a revert-task iteration whose request failed; a restart — ever moves the node
-away from the source's chain: the invariant is kept and the terminating measure does not increase.
-(`HonestEv`: the answers are truthful about `src`; nothing is assumed about their order.) -/
+/-- SAFETY OF PROGRESS (every variant). With a stable honest source NO honest event — a block of the
+source delivered late, twice, out of order, for another height, cancelled; a failed fetch with a
+stale latest header; a revert iteration whose request failed; a restart — moves the node away from
+the source's chain: the invariant is kept and the measure does not increase. -/
 theorem honest_event_never_moves_away (cfg : Cfg) (u : List Blk) (src : Chain) (S : Setting u src)
     (s : Impl) (I : LInv cfg u src s) (e : Ev) (he : HonestEv src s e) :
     LInv cfg u src (s.step cfg e).1 ∧
       measure src (s.step cfg e).1.node.chain ≤ measure src s.node.chain :=
   honest_step S I e he
 
-/-- LIVENESS UNDER FAIR INTERLEAVINGS. Take ANY event sequence in which every event is honest
-(`FairRun.other`: arbitrary interleaving of late/duplicate/out-of-order/cancelled deliveries, failing
-requests, stale heads, restarts) and which contains `k` undisturbed cycles for the then-next height
-(`FairRun.round`: the fetched block or the failed fetch + latest header, followed by the iterations
-of the revert task it starts — contiguous in the serial callback chain — with the requests
-succeeding). If `k ≥ measure` (at most `|source| + |node| + 1`) the run ends with
-`node.chain = source.chain`. I.e. convergence needs only that the pipeline gets, `measure` times,
-an answered request for its next height; everything else that happens in between is harmless.
-Same assumptions on the chains as `convergence_sequential_partial` (`Good`). -/
-theorem liveness_fair_partial (cfg : Cfg) (u : List Blk) (src c : Chain) (S : Setting u src)
-    (G : Good cfg u src c) (k : Nat) (es : List Ev)
-    (h : FairRun cfg src (Impl.init c) k es) (hk : src.length + c.length + 1 ≤ k) :
-    (Impl.run cfg (Impl.init c) es).1.node.chain = src :=
-  fair_run_converges S h ⟨G, by intro l hl; cases hl⟩ (Nat.le_trans (measure_le _ _) hk)
+/-- LIVENESS UNDER FAIR INTERLEAVINGS, THE CODE AS IT IS NOW, FROM ANY STATE WITHOUT A RUNNING TASK
+(not only the initial one: `currReorg`, the evidence, everything else arbitrary). Any event sequence
+made of honest events (`FairRun.other`), of ARBITRARY events that leave the chain alone — corrupted,
+mis-numbered, hash-altered answers, lies that start nothing — (`FairRun.noop`), and of `k`
+undisturbed cycles for the then-next height (`FairRun.round`) ends with `chain = source chain` as
+soon as `k ≥ |source| + |node| + 1`. -/
+theorem liveness_fair_asFound (u : List Blk) (src : Chain) (S : Setting u src) (s : Impl)
+    (ht : s.task = none) (hl : Linked s.node.chain) (hu : ∀ b ∈ s.node.chain, b ∈ u)
+    (hb : s.node.chain.length < U64) (hnt : src <:+ s.node.chain → src = s.node.chain)
+    (k : Nat) (es : List Ev) (h : FairRun Cfg.asFound src s k es)
+    (hk : src.length + s.node.chain.length + 1 ≤ k) :
+    (Impl.run Cfg.asFound s es).1.node.chain = src :=
+  fair_run_converges S h ⟨⟨hl, hu, hb, hnt, Or.inl rfl⟩, by intro l hl'; rw [ht] at hl'; cases hl'⟩
+    (Nat.le_trans (measure_le _ _) hk)
 
-/-- THE CODE AS IT IS NOW: the same without the underflow hypothesis. -/
-theorem liveness_fair_asFound (u : List Blk) (src c : Chain) (S : Setting u src)
-    (hl : Linked c) (hu : ∀ b ∈ c, b ∈ u) (hb : c.length < U64) (ht : src <:+ c → src = c)
-    (k : Nat) (es : List Ev) (h : FairRun Cfg.asFound src (Impl.init c) k es)
-    (hk : src.length + c.length + 1 ≤ k) :
-    (Impl.run Cfg.asFound (Impl.init c) es).1.node.chain = src :=
-  liveness_fair_partial Cfg.asFound u src c S ⟨hl, hu, hb, ht, Or.inl rfl⟩ k es h hk
+/-- … and FROM A STATE WITH A RUNNING REVERT TASK (started by whatever the source said before it
+became stable, with any `lastPossiblyValidHeight`): whatever the task is answered, after at most
+`|chain| + 1` iterations it has ended and the chain still satisfies the assumptions — so the previous
+theorem applies from there. (Every variant.) -/
+theorem running_task_terminates (cfg : Cfg) (u : List Blk) (src : Chain) (s : Impl)
+    (G : Good cfg u src s.node.chain) (answers : List (Option Blk))
+    (hlen : s.node.chain.length < answers.length) :
+    (Impl.run cfg s (answers.map (fun a => Ev.iter a true))).1.task = none ∧
+    Good cfg u src (Impl.run cfg s (answers.map (fun a => Ev.iter a true))).1.node.chain :=
+  task_terminates answers s G hlen
 
 /-- An undisturbed cycle, run on the event machine, does to the chain exactly what `round` (the
 function the harness compares with the real synchroniser) does; all its events are honest and it
@@ -539,7 +510,7 @@ theorem feed_len_ids_lose_a_subscriber :
 
 /-! ## non-vacuity -/
 
--- a catch-up + reorg run that satisfies every hypothesis of `run_accepted` and does something
+-- a catch-up + reorg run that satisfies every hypothesis of `run_accepted_asFound`
 example :
     let g : Blk := ⟨0, 1, 0, true⟩
     let x1 : Blk := ⟨1, 2, 1, true⟩
@@ -548,30 +519,44 @@ example :
     let es : List Ev := [.deliver 0 g false, .deliver 1 x1 false, .deliver 2 y2 false,
       .iter (some y1) true, .iter (some g) true, .deliver 1 y1 false, .deliver 2 y2 false]
     Linked ([] : Chain) ∧ EnvOK es ∧
-    (Impl.run Cfg.fixed (Impl.init []) es).2 =
+    (Impl.run Cfg.asFound (Impl.init []) es).2 =
       [.stored 0 1, .newHead 0 1, .stored 1 2, .newHead 1 2, .reverted 1 2,
-       .stored 1 12, .reorg ⟨1, 2, 1, 2⟩, .newHead 1 12, .stored 2 13, .newHead 2 13] ∧
-    (Impl.run Cfg.original (Impl.init []) es).2 = (Impl.run Cfg.fixed (Impl.init []) es).2 := by
-  refine ⟨trivial, ?_, by decide, by decide⟩
+       .stored 1 12, .reorg ⟨1, 2, 1, 2⟩, .newHead 1 12, .stored 2 13, .newHead 2 13] := by
+  refine ⟨trivial, ?_, by decide⟩
   exact ⟨by decide, by decide, by decide, rfl, rfl, by decide, by decide, trivial⟩
 
--- a fair run with junk between the cycles (hypotheses of `liveness_fair_partial` are satisfiable)
+-- evidence that satisfies the hypotheses of the two "absent from the answering chain" theorems
 example :
     let g : Blk := ⟨0, 1, 0, true⟩
     let x1 : Blk := ⟨1, 2, 1, true⟩
     let y1 : Blk := ⟨1, 12, 1, true⟩
-    FairRun Cfg.asFound [y1, g] (Impl.init [x1, g]) 1
-      (Ev.deliver 7 g true :: Ev.restart :: (roundEvents Cfg.asFound [y1, g] [x1, g] ++ [])) :=
-  FairRun.other _ _ _ _ (by show (_ : Blk) ∈ _; decide) (FairRun.other _ _ _ _ trivial
-    (FairRun.round _ [] 0 rfl (FairRun.done _)))
+    justified .verified ⟨[(1, y1)], [], [(1, y1)], []⟩ [x1, g] x1 = true ∧
+    justified .fresh ⟨[(1, y1)], [], [(1, y1)], []⟩ [x1, g] x1 = true ∧
+    justified .fresh ⟨[], [⟨0, 999⟩], [], [⟨0, 999⟩]⟩ [x1, g] x1 = true ∧
+    justified .verified ⟨[], [⟨0, 999⟩], [], [⟨0, 999⟩]⟩ [x1, g] x1 = false := by decide
 
--- a setting and a node chain that satisfy the hypotheses of `convergence_sequential_partial`
+-- a `Setting`, and a fair run with ENOUGH cycles (k = 5 = |src| + |node| + 1) and junk in between
 example :
     let g : Blk := ⟨0, 1, 0, true⟩
     let x1 : Blk := ⟨1, 2, 1, true⟩
     let y1 : Blk := ⟨1, 12, 1, true⟩
-    (runRounds Cfg.original [y1, g] 5 ⟨[x1, g], none⟩).1.chain = [y1, g] ∧
-    (runRounds Cfg.original [y1, g] 5 ⟨[x1, g], none⟩).2 =
-      [.reverted 1 2, .stored 1 12, .reorg ⟨1, 2, 1, 2⟩, .newHead 1 12] := by decide
+    Setting [x1, y1, g] [y1, g] ∧
+    ∃ es, FairRun Cfg.asFound [y1, g] (Impl.init [x1, g]) 5 es := by
+  refine ⟨⟨?_, ⟨rfl, rfl, rfl, rfl⟩, by decide, by decide, by decide, by decide⟩, ?_⟩
+  · intro x hx y hy h
+    simp only [List.mem_cons, List.mem_nil_iff, or_false] at hx hy
+    rcases hx with rfl | rfl | rfl <;> rcases hy with rfl | rfl | rfl <;> first | rfl | (simp at h)
+  · -- junk, then five rounds (existence of the rest: every state without a task admits a round)
+    have rounds : ∀ (k : Nat) (s : Impl), s.task = none → ∃ es, FairRun Cfg.asFound [y1, g] s k es := by
+      intro k
+      induction k with
+      | zero => intro s _; exact ⟨[], FairRun.done s⟩
+      | succ k ih =>
+        intro s ht
+        obtain ⟨_, _, ht'⟩ := roundEvents_spec Cfg.asFound [y1, g] s ht
+        obtain ⟨es, hes⟩ := ih _ ht'
+        exact ⟨_, FairRun.round s es k ht hes⟩
+    obtain ⟨es, hes⟩ := rounds 5 ((Impl.init [x1, g]).step Cfg.asFound (.deliver 7 ⟨0, 1, 0, false⟩ true)).1 rfl
+    exact ⟨_, FairRun.noop _ (.deliver 7 ⟨0, 1, 0, false⟩ true) es 5 rfl (Or.inl rfl) hes⟩
 
 end Juno.C06.Props
